@@ -1025,6 +1025,19 @@ class Interpreter(BaseInterpreter[TContext, TEvent]):
             if explicit_id
             else f"{self.id}:{actor_machine_key}:{uuid.uuid4()}"
         )
+        # ♻️ An explicit id that is still in use: stop the previous actor first.
+        #    Overwriting the `_actors` entry orphaned it - still running,
+        #    unreachable by id and never stopped by this interpreter's `stop()`.
+        previous = self._actors.pop(actor_id, None)
+        if previous is not None:
+            logger.warning(
+                "⚠️ Actor id '%s' is already in use; stopping the previous "
+                "actor before spawning its replacement.",
+                actor_id,
+            )
+            stopped = previous.stop()
+            if inspect.isawaitable(stopped):
+                await stopped
         child_interpreter = Interpreter(actor_machine)
         child_interpreter.parent = self
         child_interpreter.id = actor_id
